@@ -609,7 +609,7 @@ def gen_entry(rng, h, kind):
             r['n_sim'] = _first_h(r['pop']) or rng.randint(2, 3)
             r['ftimes'] = sorted(rng.sample([0.5, 1.0, 2.0, 3.0],
                                             rng.randint(1, 3)))
-            r['fdata'] = [[_vals(rng, 3) for _ in range(3)]
+            r['fdata'] = [[_vals(rng, 3) for _ in range(max(3, n_out))]
                           for _ in range(3)]
     return r
 
